@@ -2,7 +2,7 @@
    the implementation — or the harness's spec twin — returned) and says whether
    the model agrees. *)
 From Coq Require Import String ZArith.
-From PG Require Import Lib.Str Lib.PyInt Model.Entry Model.Render0 Model.Gophermap Model.GophermapSpec.
+From PG Require Import Lib.Str Lib.PyInt Model.Selector Model.Entry Model.Render0 Model.Gophermap Model.GophermapSpec.
 Local Open Scope N_scope.
 
 (* type, name, selector, host, port, gopherpsupport *)
@@ -22,11 +22,16 @@ Definition core_eqb (a b : core) : bool :=
 (* VFS_Real.exists on a symlink-free scratch tree: root + selector with ONE
    trailing slash removed must be a node of the tree.  `existing` lists the
    selectors of all nodes ("" is the root). *)
-Definition k_exists (existing : list str) (sel : str) : bool :=
+Definition k_exists_raw (existing : list str) (sel : str) : bool :=
   mem_str (match last_char sel with
            | Some c => if c =? GM_SLASH then drop_last sel else sel
            | None => sel
            end) existing.
+(* /repo (gophermap.py, repaired): the VFS is consulted only for a link selector that passes the
+   request filter (BaseHandler.isrequestsecure, pattern list regenerated in Gen/Secure.v): the lookup
+   `self.vfs.exists(selector)` of prepare() is `isrequestsecure() and self.vfs.exists(selector)`. *)
+Definition k_exists (existing : list str) (sel : str) : bool :=
+  is_secure sel && k_exists_raw existing sel.
 
 Definition k_populate : str -> entry -> entry := populate_core (fun _ => lit "0"%string).
 
@@ -118,8 +123,9 @@ Definition zip_inner (zipname sel : str) : str :=
 Definition in_archive (zipname sel : str) : bool :=
   str_eqb sel zipname || prefixb (zipname ++ [GM_SLASH]) sel.
 Definition k_exists_zip (zipname : str) (members outside : list str) (sel : str) : bool :=
-  if in_archive zipname sel then mem_str (zip_inner zipname sel) members
-  else k_exists outside sel.
+  is_secure sel &&
+  (if in_archive zipname sel then mem_str (zip_inner zipname sel) members
+   else k_exists_raw outside sel).
 (* PINNED rule (before 91cede6): len(zipname) characters were cut off ANY selector, so a link
    out of the archive was looked up inside it ("/a.txt" -> "" = the archive root). *)
 Definition k_exists_zip_pinned (zipname : str) (members : list str) (sel : str) : bool :=
